@@ -19,15 +19,40 @@ ROOT = os.path.dirname(os.path.dirname(os.path.abspath(__file__)))
 PY = "/venv/bin/python"
 
 
-def scratch(patch=None):
+BASE_USED = {}
+
+
+def scratch_rev(rev):
     d = tempfile.mkdtemp(prefix="vp-seed-")
-    subprocess.run(f"git -C /repo archive {os.environ.get('SEED_BASE_REV', 'HEAD')} | tar -x -C {d}", shell=True, check=True)
-    if patch:
-        r = subprocess.run(["patch", "-p1", "-d", d, "-i", os.path.abspath(patch)], capture_output=True, text=True)
-        if r.returncode:
-            shutil.rmtree(d)
-            raise SystemExit("patch failed: " + r.stdout + r.stderr)
+    subprocess.run(f"git -C /repo archive {rev} | tar -x -C {d}", shell=True, check=True)
     return d
+
+
+def scratch(patch=None):
+    """Scratch copy of /repo at SEED_BASE_REV (default HEAD) with the patch applied.  A change written against an
+    earlier tree may no longer apply after later `fix:` commits touched the same lines: then the newest earlier
+    commit on which it applies cleanly is used (and reported)."""
+    first = os.environ.get("SEED_BASE_REV", "HEAD")
+    revs = [first]
+    if patch:
+        older = subprocess.run(["git", "-C", "/repo", "rev-list", "--max-count=40", first], capture_output=True, text=True).stdout.split()
+        revs += older[1:]
+    last_err = ""
+    for rev in revs:
+        d = tempfile.mkdtemp(prefix="vp-seed-")
+        subprocess.run(f"git -C /repo archive {rev} | tar -x -C {d}", shell=True, check=True)
+        if not patch:
+            return d
+        r = subprocess.run(["patch", "-p1", "--no-backup-if-mismatch", "-F0", "-d", d, "-i", os.path.abspath(patch)],
+                           capture_output=True, text=True)
+        if r.returncode == 0:
+            BASE_USED[patch] = rev
+            if rev != first:
+                print(f"(patch does not apply on {first}; applied on {rev[:7]})")
+            return d
+        last_err = r.stdout + r.stderr
+        shutil.rmtree(d)
+    raise SystemExit("patch failed on every candidate base: " + last_err[-300:])
 
 
 def run_demo(d, demo):
@@ -85,11 +110,31 @@ def main():
         try:
             env = dict(os.environ, VERIF_REPO=mut, VERIF_NO_EVIDENCE="1")
             res = {}
+            base_rev = BASE_USED.get(patch, "HEAD")
+            head = subprocess.run(["git", "-C", "/repo", "rev-parse", "HEAD"], capture_output=True, text=True).stdout.strip()
+            old_base = base_rev not in ("HEAD", head) and not head.startswith(base_rev)
+
+            def keyset(stderr, p):
+                return {ln.strip().split(" ", 2)[1].rstrip(":") for ln in stderr.splitlines() if ln.strip().startswith(f"[{p}]")}
             for p in props:
                 r = subprocess.run([os.path.join(ROOT, "check"), p, "--tier", tier], env=env, capture_output=True, text=True)
                 keys = [ln.strip()[:220] for ln in r.stderr.splitlines() if ln.strip().startswith(f"[{p}]")]
-                res[p] = {"exit": r.returncode, "keys": keys[:4]}
-                print(f"{p} ({tier}): exit {r.returncode}", *keys[:3], sep="\n    ")
+                res[p] = {"exit": r.returncode, "keys": keys[:4], "base": base_rev[:7]}
+                if old_base and r.returncode == 1:
+                    # the base is an older tree that may itself violate (defects repaired since): only violation
+                    # keys that the unpatched base does not show are attributed to the change
+                    clean = scratch_rev(base_rev)
+                    try:
+                        r0 = subprocess.run([os.path.join(ROOT, "check"), p, "--tier", tier],
+                                            env=dict(env, VERIF_REPO=clean), capture_output=True, text=True)
+                    finally:
+                        shutil.rmtree(clean, ignore_errors=True)
+                    new = sorted(keyset(r.stderr, p) - keyset(r0.stderr, p))
+                    res[p]["keys_not_on_base"] = new[:6]
+                    print(f"    (base {base_rev[:7]} alone: exit {r0.returncode}; keys only with the change: {new[:4]})")
+                    if not new:
+                        res[p]["exit"] = 0
+                print(f"{p} ({tier}): exit {res[p]['exit']}", *keys[:3], sep="\n    ")
                 if r.returncode == 2:
                     print("   ", [ln for ln in r.stdout.splitlines() if "INCONCLUSIVE" in ln][:2])
             meta.setdefault("checks", {})[tier] = res
